@@ -1,11 +1,13 @@
-/- line-protocol driver for C10: `drv_c10 cond` (conditional nests), `drv_c10 incl` (include graphs).
+/- line-protocol driver for C10: `drv_c10 cond` (conditional nests), `drv_c10 incl` (include graphs), `drv_c10 ifline` (controlling expressions as token lines).
    Core Lean only (nothing imported here may import Mathlib, or the executable will not link). -/
 import ChibiVerif.Driver.CondInclCmd
+import ChibiVerif.Driver.IfLineCmd
 
 def main (args : List String) : IO UInt32 := do
   match args with
   | "cond" :: _ => ChibiVerif.Driver.C10.condMain
   | "incl" :: _ => ChibiVerif.Driver.C10.inclMain
+  | "ifline" :: _ => ChibiVerif.Driver.C10.iflineMain
   | _ =>
-    IO.eprintln "usage: drv_c10 cond|incl"
+    IO.eprintln "usage: drv_c10 cond|incl|ifline"
     return 2
